@@ -146,6 +146,8 @@ class Executor:
                 return SV(ty, sv.z)
         if isinstance(ty, TRef) and sv.t is NONE:
             return SV(ty, NULL)
+        if ty is BOOL and sv.t is NONE:
+            return SV(BOOL, z3.BoolVal(False))   # a parameter declared BOOL stands for the truthiness of the argument
         if isinstance(ty, TOpt):
             if sv.t is NONE:
                 return SV(ty, ty.dt.none)
